@@ -7,6 +7,7 @@ CONSTANTS
   MaxPage = 2
   MaxEnv = 2
   MaxHist = 0
+  CanFail = TRUE
   GeOp = ">="
 VIEW view
 INVARIANTS TypeOK Complete NoBugBranch SeenBelowCursor
